@@ -40,6 +40,12 @@ package main
 // called with its stream position (`src`), i.e. its completion depends on the read loop delivering a
 // later message. The harness's own gates and the end-of-script release do NOT open it.
 //
+// Step "imap" (and the signal "sig" of every step) take maps with INTEGER keys - a `table`
+// property of type map[int]string and, for the step, an any-typed `extra` that is given such a map,
+// also nested: payloads whose CBOR maps have non-text keys. A valid work-start carrying them must
+// reach its handler and be answered with work-done; a valid signal carrying one must be delivered
+// (it releases a "waitsig" step).
+//
 // Oracle findings (prop C07): process crash, RunATPServer not returning after input ended and all
 // handlers were released, a run whose number of terminal messages differs from the number of its
 // accepted work-starts while the output was open, corrupted output framing.
@@ -116,6 +122,14 @@ type atpsIn struct {
 	Src  int64  `json:"src"`
 }
 
+type atpsInMap struct {
+	Name  string           `json:"name"`
+	Beh   string           `json:"beh"`
+	Src   int64            `json:"src"`
+	Table map[int64]string `json:"table"`
+	Extra any              `json:"extra"`
+}
+
 type atpsOut struct {
 	Message string `json:"message"`
 }
@@ -127,7 +141,8 @@ type atpsErrOut struct {
 type atpsSigIn struct {
 	Beh string `json:"beh"`
 	// stream position of a work-start whose "waitsig" handler this signal releases (0 = none)
-	Src int64 `json:"src"`
+	Src   int64            `json:"src"`
+	Table map[int64]string `json:"table"`
 }
 
 func atpsProp(t schema.Type, required bool) *schema.PropertySchema {
@@ -314,6 +329,7 @@ func (r *atpsRunner) plugin() *schema.CallableSchema {
 		return schema.NewScopeSchema(schema.NewStructMappedObjectSchema[atpsSigIn]("SigInput", map[string]*schema.PropertySchema{
 			"beh": atpsProp(schema.NewStringSchema(nil, nil, nil), true),
 			"src": atpsProp(schema.NewIntSchema(nil, nil, nil), false),
+			"table": atpsProp(schema.NewMapSchema(schema.NewIntSchema(nil, nil, nil), schema.NewStringSchema(nil, nil, nil), nil, nil), false),
 		}))
 	}
 	// "hello": step data of interface type without initializer (as in the SDK's own tests)
@@ -334,7 +350,20 @@ func (r *atpsRunner) plugin() *schema.CallableSchema {
 			}
 			return &atpsStepData{}
 		}, r.stepHandler2)
-	return schema.NewCallableSchema(hello, withInit, panicInit)
+	// "imap": input with an int-keyed map and an any-typed property
+	mapIn := schema.NewScopeSchema(schema.NewStructMappedObjectSchema[atpsInMap]("MapInput", map[string]*schema.PropertySchema{
+		"name":  atpsProp(schema.NewStringSchema(nil, nil, nil), true),
+		"beh":   atpsProp(schema.NewStringSchema(nil, nil, nil), false),
+		"src":   atpsProp(schema.NewIntSchema(nil, nil, nil), true),
+		"table": atpsProp(schema.NewMapSchema(schema.NewIntSchema(nil, nil, nil), schema.NewStringSchema(nil, nil, nil), nil, nil), true),
+		"extra": atpsProp(schema.NewAnySchema(), false),
+	}))
+	withMap := schema.NewCallableStepWithSignals[any, atpsInMap]("imap", mapIn, outputs(),
+		map[string]schema.CallableSignal{"sig": schema.NewCallableSignal[any, atpsSigIn]("sig", sigSchema(), nil, r.sigHandler)},
+		nil, nil, nil, func(ctx context.Context, _ any, in atpsInMap) (string, any) {
+			return r.stepHandler(ctx, nil, atpsIn{Name: in.Name, Beh: in.Beh, Src: in.Src})
+		})
+	return schema.NewCallableSchema(hello, withInit, panicInit, withMap)
 }
 
 // ---------------------------------------------------------------------------------------------
@@ -356,6 +385,8 @@ type atpsItem struct {
 	WsSrc   int64
 	WsSrcOK bool
 	WsValid bool // the config is what the step's input schema accepts (name string, src number, beh string or absent)
+	// the same for step "imap": additionally a non-empty int-keyed `table`, `extra` absent or such a table
+	WsValidMap bool
 	SgOK    bool
 }
 
@@ -406,6 +437,22 @@ func atpsClassifyStream(stream []byte, off int, first bool) (items []atpsItem, n
 				for k := range m {
 					if ks, ok := k.(string); !ok || (ks != "name" && ks != "beh" && ks != "src") {
 						it.WsValid = false
+					}
+				}
+				it.WsValidMap = nameOK && (!hasBeh || behOK) && atpsIntKeyedTable(m["table"], false)
+				for k, v := range m {
+					ks, ok := k.(string)
+					switch {
+					case !ok:
+						it.WsValidMap = false
+					case ks == "extra":
+						// what the generator gives the any-typed property: an int-keyed table, plain or
+						// nested one level under a text key
+						if !atpsIntKeyedTable(v, true) {
+							it.WsValidMap = false
+						}
+					case ks != "name" && ks != "beh" && ks != "src" && ks != "table":
+						it.WsValidMap = false
 					}
 				}
 				switch n := m["src"].(type) {
@@ -835,7 +882,7 @@ func atpsRunSession(sess *atpsSession, to atpsTimeouts) (out atpsOutcome) {
 				reach2 = false
 				continue
 			}
-			if it.accepted() && (it.WsStep == "hello" || it.WsStep == "init") && it.WsValid && it.WsSrcOK && int(it.WsSrc) == i {
+			if it.accepted() && (((it.WsStep == "hello" || it.WsStep == "init") && it.WsValid) || (it.WsStep == "imap" && it.WsValidMap)) && it.WsSrcOK && int(it.WsSrc) == i {
 				r.mu.Lock()
 				entered := r.entered[i]
 				r.mu.Unlock()
@@ -929,6 +976,47 @@ func atpsSig(run any, sig string, beh any) map[string]any {
 	return m
 }
 
+// atpsIntKeyedTable: a non-empty CBOR map whose keys are integers and whose values are text; with
+// nested, also a map with one text key holding such a table.
+func atpsIntKeyedTable(v any, nested bool) bool {
+	m, ok := v.(map[any]any)
+	if !ok || len(m) == 0 {
+		return false
+	}
+	for k, x := range m {
+		switch k.(type) {
+		case uint64, int64:
+			if _, ok := x.(string); !ok {
+				return false
+			}
+		case string:
+			if !nested || len(m) != 1 || !atpsIntKeyedTable(x, false) {
+				return false
+			}
+		default:
+			return false
+		}
+	}
+	return true
+}
+
+// atpsWSMap is a work-start for step "imap".
+func atpsWSMap(run string, name, beh string, src int, table map[int]string, extra any) map[string]any {
+	cfg := map[string]any{"name": name, "src": src, "table": table}
+	if beh != "" {
+		cfg["beh"] = beh
+	}
+	if extra != nil {
+		cfg["extra"] = extra
+	}
+	return map[string]any{"id": uint32(1), "run_id": run, "data": map[string]any{"id": "imap", "config": cfg}}
+}
+
+// atpsReleaseMap is atpsRelease carrying an int-keyed map in the signal's data.
+func atpsReleaseMap(run string, src int, table map[int]string) map[string]any {
+	return map[string]any{"id": uint32(3), "run_id": run, "data": map[string]any{"signal_id": "sig", "data": map[string]any{"beh": "ok", "src": src, "table": table}}}
+}
+
 // atpsRelease is the signal that lets the "waitsig" handler at stream position src return.
 func atpsRelease(run string, src int) map[string]any {
 	return map[string]any{"id": uint32(3), "run_id": run, "data": map[string]any{"signal_id": "sig", "data": map[string]any{"beh": "ok", "src": src}}}
@@ -975,6 +1063,16 @@ func (g *atpsGen) message(idx int, runs *[]string) (b []byte, gated bool, note s
 	}
 	beh := atpsBehs[g.r.Intn(len(atpsBehs))]
 	switch k := g.r.Intn(100); {
+	case k < 6: // int-keyed maps in the input
+		table := map[int]string{1 + g.r.Intn(5): "a", 10 + g.r.Intn(5): "b"}
+		var extra any
+		switch g.r.Intn(3) {
+		case 0:
+			extra = map[int]string{g.r.Intn(100): "x"}
+		case 1:
+			extra = map[string]any{"nested": map[int]string{7: "y", 8: "z"}}
+		}
+		return atpsEnc(atpsWSMap(newRun(), fmt.Sprintf("n%d", idx), beh, idx, table, extra)), true, "ws-imap:" + beh
 	case k < 34:
 		return atpsEnc(atpsWS(newRun(), step, fmt.Sprintf("n%d", idx), beh, idx)), true, "ws:" + beh
 	case k < 38: // duplicate run ID
@@ -1039,6 +1137,9 @@ func (g *atpsGen) message(idx int, runs *[]string) (b []byte, gated bool, note s
 			return atpsEnc(atpsSig(someRun(), "sig", 7)), false, "sig"
 		}
 	case k < 72:
+		if g.r.Intn(3) == 0 {
+			return atpsEnc(atpsReleaseMap(someRun(), 0, map[int]string{g.r.Intn(9): "s", 20: "t"})), false, "sig-ok-int-map"
+		}
 		return atpsEnc(atpsSig(someRun(), "sig", "ok")), false, "sig-ok"
 	case k < 78: // unknown message IDs (including the server's own)
 		ids := []uint32{0, 2, 5, 6, 99, 4294967295}
@@ -1227,6 +1328,16 @@ func atpsDirected(nextID func() int) []*atpsSession {
 			send(atpsWS("r1", id, "a", "ok", 1)), atpsAction{Op: "settle"}, send(atpsWS("r2", "hello", "b", "ok", 2)), rel(2),
 			send(atpsSig("r2", id, "ok")), send(atpsSig("r1", id, "ok")), atpsAction{Op: "settle"}, send(atpsClientDone())))
 	}
+	// payloads with integer-keyed maps: in the step input, in an any-typed property (also nested),
+	// and in the data of the signal that releases a waiting step
+	out = append(out,
+		mk("int-keyed map in the step input", send(atpsWSMap("r1", "a", "ok", 1, map[int]string{1: "one", 2: "two"}, nil)), rel(1), atpsAction{Op: "settle"}, send(atpsClientDone())),
+		mk("int-keyed maps in the input and in an any-typed property", send(atpsWSMap("r1", "a", "errout", 1, map[int]string{5: "five"}, map[int]string{7: "x", 8: "y"})), rel(1),
+			send(atpsWSMap("r2", "b", "ok", 2, map[int]string{1: "q"}, map[string]any{"nested": map[int]string{3: "z"}})), rel(2), atpsAction{Op: "settle"}, send(atpsClientDone())),
+		mk("a step waits for a signal whose data carries an int-keyed map", send(atpsWSMap("r1", "a", "waitsig", 1, map[int]string{1: "one"}, nil)), atpsAction{Op: "settle"},
+			send(atpsWS("r2", "hello", "b", "waitsig", 2)), atpsAction{Op: "settle"},
+			send(atpsReleaseMap("r1", 1, map[int]string{4: "four", 5: "five"})), send(atpsReleaseMap("r2", 2, map[int]string{6: "six"})), atpsAction{Op: "settle"}, send(atpsClientDone())),
+	)
 	// many runs in progress, each finishing only when a later message (its release signal) is
 	// delivered: all started before the first signal is sent; released in order and in reverse order
 	for _, reverse := range []bool{false, true} {
